@@ -7,6 +7,21 @@ PY = "/venv/bin/python"
 
 # property id -> (design section, technique, level text, level note)
 BUILT = {
+    "C17": ("§4.17", "differential exhaustive enumeration: every opaque-text site of the carrier/enriched files x every "
+            "same-width replacement built from code-like lexemes (deviation bound 1, pairs in thorough)",
+            "Two runs of the real pipeline per case; the (level, code, line, col) diagnostics must be identical.",
+            "Replacements never form the site's delimiter, a backslash, a newline or a trigraph; the 42 header and "
+            "#include paths are excluded by the property."),
+    "C18": ("§4.18", "differential exhaustive enumeration: every user identifier of every carrier file renamed alone to "
+            "each member of its same-length/same-class pool, and all identifiers together under each letter map",
+            "Two runs of the real pipeline per case; diagnostics must be identical in code, line and column.",
+            "Identifier classes come from the model's piece tags; keywords and names the tool treats specially are never "
+            "produced; the case pattern is part of the class."),
+    "C19": ("§4.19", "differential exhaustive enumeration over insertion points: header prepended (L1), a comment line at "
+            "every top-level point (L2), six conforming functions appended (L3) for every carrier file",
+            "The diagnostics of the edited file must be exactly the shifted diagnostics of the original (L1 minus the one "
+            "INVALID_HEADER).",
+            "Top-level points come from the model's line kinds; points between two empty lines are excluded."),
     "C08": ("§4.8", "exhaustive check of every diagnostic of every carrier / diagnostic-dense file, and exhaustive "
             "enumeration of all pairs and triples of a small Error domain for the comparator laws",
             "Every file of the carrier sets: each diagnostic well-formed (catalogue code and text, level, position inside "
